@@ -25,15 +25,24 @@ from ..simdev.base import World, HidStub, SW
 from ..simdev.uiadmin import (UiAdmin, MODE_BOOTLOADER, MODE_SIGNER, MODE_UI_HEARTBEAT,
                               MODE_DASHBOARD, DOCUMENTED_PATHS, pin_policy_ok)
 
-PIN_KINDS = ["absent", "valid", "short7", "digits", "nonalnum", "long9"]
+# non-ASCII kinds: \u00ba (masculine ordinal) and \u00b5 (micro) are "letters" for str.isalpha and take
+# two bytes in UTF-8.  uni-letters / uni-digits encode to exactly 8 BYTES (7 characters),
+# uni-8chars is 8 CHARACTERS (9 bytes).  The policy speaks about what the device receives:
+# 8 ASCII alphanumerics with at least one ASCII letter.
+PIN_KINDS = ["absent", "valid", "short7", "digits", "nonalnum", "long9",
+             "uni-letters", "uni-digits", "uni-8chars"]
 PIN_VALUES = {"valid": "1234567a", "short7": "123456a", "digits": "12345678",
-              "nonalnum": "1234567!", "long9": "1234567ab"}
+              "nonalnum": "1234567!", "long9": "1234567ab",
+              "uni-letters": "abc123\u00ba", "uni-digits": "123456\u00ba", "uni-8chars": "abc1234\u00b5"}
 NEWPIN_VALUES = {"valid": "Abcd1234", "short7": "Abcd123", "digits": "87654321",
-                 "nonalnum": "Abcd123$", "long9": "Abcd12345"}
+                 "nonalnum": "Abcd123$", "long9": "Abcd12345",
+                 "uni-letters": "Abcd12\u00b5", "uni-digits": "876543\u00b5", "uni-8chars": "Abcd123\u00ba"}
 GETPASS_MENU = [("valid", "gp1234Zz"), ("short7", "gp1234Z"), ("digits", "11223344"),
-                ("nonalnum", "gp1234Z*"), ("long9", "gp1234Zz9")]
+                ("nonalnum", "gp1234Z*"), ("long9", "gp1234Zz9"),
+                ("uni-letters", "gp1234\u00ba"), ("uni-digits", "112233\u00ba"),
+                ("uni-8chars", "gp1234Z\u00b5")]
 STDIN_MENU = ["yes\n", "YES\n", "no\n", "n\n", "maybe\n", "\n", "y\n"]
-STDIN_EXTRA = ["Yes\n", "Y\n", "NO\n", "yes \n", "ye\n"]
+STDIN_EXTRA = ["Yes\n", "Y\n", "NO\n", "yes \n", "ye\n", "\uff59\uff45\uff53\n", "yes\u00ba\n"]
 MODES = ["bootloader", "signer", "ui-heartbeat", "0xff", "undefined", "status-error"]
 NAMES = {"btc": "m/44'/0'/0'/0/0", "rsk": "m/44'/137'/0'/0/0", "mst": "m/44'/137'/1'/0/0",
          "tbtc": "m/44'/1'/0'/0/0", "trsk": "m/44'/1'/1'/0/0", "tmst": "m/44'/1'/2'/0/0"}
@@ -205,7 +214,7 @@ class C18(Check):
             "echo x2, unlock x2, new PIN x2, onboarding answer x2} and operator inputs {stdin lines "
             "<= 3 over 7 answers + walk away, getpass answers <= 3 over 5 PIN kinds + walk away, "
             "Enter with / without re-plugging} for every static configuration {onboard, unlock, "
-            "changepin, pubkeys} x {Ledger, SGX} x --pin x6 x --newpin x6 x --anypin x --nounlock x "
+            "changepin, pubkeys} x {Ledger, SGX} x --pin x9 x --newpin x9 x --anypin x --nounlock x "
             "--noexec x output x 2 randomness streams (flags a command does not read are enumerated "
             "in the thorough tier), driven through adm_ledger.main / adm_sgx.main.  A state is "
             "(configuration, device state, chosen dimensions, operator progress) at a choice point; "
